@@ -24,6 +24,12 @@ func writeEvidence(path, prop, tier string, seed int, c *Ctx, violated, known []
 		doc.Explanation = "static rule set over the type-checked program; see DESIGN.md"
 	}
 	cov["explanation"] = doc.Explanation
+	// the rules actually registered for this property (authoritative; the prose above may lag behind)
+	var rulesRun []string
+	for _, r := range propRules[prop] {
+		rulesRun = append(rulesRun, r.id+": "+r.doc)
+	}
+	cov["rules_run"] = rulesRun
 	cov["rule"] = "obligations are (rule, construct) pairs enumerated from the type-checked AST / go/ssa form of every library package of the current working tree; an obligation is non-trivial when a rule had to be applied to a construct found in the source (notes and absent constructs are not counted); distinct = distinct semantic keys"
 	cov["checker_cmd"] = "bin/gonnxcheck -repo /repo -property " + prop + " -tier " + tier
 	cov["trusted_base"] = doc.Assumptions
